@@ -1,6 +1,11 @@
 package ast
 
-import "github.com/dcaiafa/lox/internal/lexergen/mode"
+import (
+	"cmp"
+	"slices"
+
+	"github.com/dcaiafa/lox/internal/lexergen/mode"
+)
 
 type FragRule struct {
 	baseStatement
@@ -58,7 +63,25 @@ func (r *FragRule) RunPass(ctx *Context, pass Pass) {
 			return
 		}
 
+		// The state machine stops interpreting a rule's actions at the first
+		// emit, discard or accumulate. Mode actions must come before it to
+		// take effect, whatever order they were written in.
+		slices.SortStableFunc(actions.Actions, func(a, b mode.Action) int {
+			return cmp.Compare(actionRank(a), actionRank(b))
+		})
+
 		nfaCons.E.Data = actions
 		ctx.CurrentLexerMode.Peek().AddRule(*nfaCons)
+	}
+}
+
+// actionRank orders mode actions (push, pop) before the action that ends the
+// interpretation of a rule's actions (emit, discard, accumulate).
+func actionRank(a mode.Action) int {
+	switch a.Type {
+	case mode.ActionPushMode, mode.ActionPopMode:
+		return 0
+	default:
+		return 1
 	}
 }
